@@ -192,7 +192,8 @@ def cases(tier, seed):
         out.append(dict(kind='mixed-history', cfg=rng.choice(cfgs2 + [dict(p=3), dict(p=2, r=1)]), hseed=rng.randrange(10 ** 9),
                         length=rng.randint(2, L), wrapper=bool(rng.random() < 0.5)))
     # --- registered functions that share a Python __name__ (closures of one factory, a user function called div / sqrt ...)
-    for scenario in ('closures', 'closures-nested', 'closures-symbolic', 'named-div', 'named-sqrt', 'named-custom', 'named-codegen_gp', 'redefined', 'name-tail-digits'):
+    for scenario in ('closures', 'closures-nested', 'closures-symbolic', 'named-div', 'named-sqrt', 'named-custom', 'named-codegen_gp', 'redefined', 'name-tail-digits',
+                     'registered-twice'):
         for wrapped in (False, True):
             for cfg in (cfgs2 if tier == 'thorough' else cfgs2[:2]):
                 out.append(dict(kind='same-name', cfg=cfg, scenario=scenario, wrapped=wrapped, ka=rng.sample(range(4), 2), kb=rng.sample(range(4), 2)))
@@ -829,6 +830,19 @@ def _run_same_name(desc, V):
                 calls.append((f'rot[{j}]#{t}', ra[j], fa[j], [xv]))
                 calls.append((f'rot_{j}#{t}', rb[j], fb[j], [xv]))
         calls = calls + calls[:12]
+    elif sc == 'registered-twice':
+        # one function object registered twice (numeric and symbolic), then another function of the same name
+        g1 = _mk_named('c09_twice', 'a * b', 2)
+        g2 = _mk_named('c09_twice', 'a + b', 2)
+        r1n = alg.register(g1)
+        r1s = alg.register(g1, symbolic=True)
+        r2 = alg.register(g2)
+        outer = _mk_named('c09_twice_outer', 'inner(a, b) ^ a', 2)
+        outer.__globals__['inner'] = r1s
+        ro = alg.register(outer)
+        plain_outer = lambda a, b: (a * b) ^ a
+        calls = [('first#0', r1s, g1, [x, y]), ('second#0', r2, g2, [x, y]), ('first#1', r1s, g1, [x, y]), ('outer#0', ro, plain_outer, [x, y]),
+                 ('second#1', r2, g2, [x, y]), ('outer#1', ro, plain_outer, [x, y]), ('first-numeric', r1n, g1, [x, y])]
     elif sc == 'redefined':
         # the documented decorator form used twice for the same name (a notebook cell run again with another body)
         g1 = _mk_named('c09_cell', 'a * b', 2)
